@@ -134,7 +134,7 @@ def run(ctx):
                        "event sequences")
     ctx.assumptions += ["tags that spell the current (id, serial) differently (leading zeros, upper case) are not generated (DESIGN.md 9)"]
     if ctx.tier == "quick":
-        st = R.standard(ctx, [R.Plan("qr", "S_q1", emit_mod=70, max_inst=2, max_pw=1, stray=1)], OWN,
+        st = R.standard(ctx, [R.Plan("qr", "S_q1", emit_mod=120, max_inst=2, max_pw=1, stray=1)], OWN,
                         need=("replies", "accept_D", "accept_R"))
         n = differential(ctx, "dq", "S_t1d", nb=350, per=1, max_inst=1, max_pw=2, emit_mod=20, stray=1)
     else:
